@@ -570,14 +570,15 @@ class BuiltinModelLoaderGen(ModelLoaderGen):
                 if self._strict_coercion:
                     self._gen_forbidden_sequence_check(state)
 
-                for key, value in enumerate(crown.map):
-                    self._gen_crown_dispatch(state, value, key)
-
+                # indexing proves nothing: a mapping with integer keys can be indexed too
                 if state.path not in state.type_checked_type_paths:
                     with state.builder(f"if not isinstance({state.v_data}, CollectionsSequence):"):
                         self._gen_raise_bad_type_error(state, f"TypeLoadError(CollectionsSequence, {state.v_data})")
                     state.builder.empty_line()
                     state.type_checked_type_paths.add(state.path)
+
+                for key, value in enumerate(crown.map):
+                    self._gen_crown_dispatch(state, value, key)
 
                 expected_len = len(crown.map)
                 if crown.extra_policy == ExtraForbid():
